@@ -43,8 +43,9 @@ fn poll_ext_case(n: usize) {
     match &r {
         None => assert!(!any_ext && best.is_none(), "C10.arb: a pending request is never dropped"),
         Some(int) => match &int.kind {
+            // (which of an external and a vectored request wins is not constrained by the property)
             InterruptKind::External(_) => assert!(any_ext, "C10.arb: no interrupt is invented"),
-            InterruptKind::Vectored { priority, .. } => assert!(!any_ext && Some(*priority) == best, "C10.arb: a host (external) interrupt outranks vectored requests; otherwise the highest priority wins"),
+            InterruptKind::Vectored { priority, .. } => assert!(Some(*priority) == best, "C10.arb: among vectored requests the highest priority wins"),
         },
     }
     std::mem::forget(r);
